@@ -167,6 +167,9 @@ class CondNorm:
                 ty = f.text(y)
                 if ty in ("std::nullopt", "nullptr", "std::nullopt_t()"):
                     return self.decompose(x, pol if op == "!=" else not pol, depth + 1)
+                if ty in ("true", "false") and f.nodes[f.strip(y)]["k"] == "lit":
+                    same = (op == "==") == (ty == "true")      # x==true / x!=false  <=> x
+                    return [self._fact(i, pol)] + self.decompose(x, pol if same else not pol, depth + 1)
         out = [self._fact(i, pol)]
         if k == "ref" and n["dk"] == "local":
             init = self.single_init().get(n.get("decl"))
@@ -618,3 +621,43 @@ def loop_of_stmt(fn, stmt_node):
         if l["stmt"] == stmt_node:
             return l
     return None
+
+
+def enumerate_paths(prog, fn, max_paths=4096, cg=None):
+    """All entry->exit paths of an acyclic function (back edges are not followed).
+    Yields lists of steps: ("node", id) for CFG elements, ("edge", key, polarity)
+    for condition facts.  Raises ValueError beyond max_paths."""
+    fl = Flow(prog, fn, cg=cg)          # for edge_facts / condition keys
+    dom, succ, pred = dominators(fn)
+    back = set()
+    for u in dom:
+        for v in succ[u]:
+            if v in dom.get(u, ()):
+                back.add((u, v))
+    out = []
+    count = [0]
+
+    def walk(b, acc):
+        blk = fn.blocks[b]
+        steps = list(acc)
+        for e in blk["elems"]:
+            if "dtor" in e:
+                continue
+            n = e.get("n", -1)
+            if n is not None and n >= 0:
+                steps.append(("node", n))
+        nxt = [(j, s) for j, s in enumerate(blk["succ"]) if isinstance(s, int) and (b, s) not in back]
+        if not nxt or blk.get("exit"):
+            count[0] += 1
+            if count[0] > max_paths:
+                raise ValueError("too many paths in " + fn.qname)
+            out.append(steps)
+            return
+        for j, s in nxt:
+            st2 = list(steps)
+            for k, p in fl.edge_facts(b, j):
+                st2.append(("edge", k, p))
+            walk(s, st2)
+
+    walk(fn.entry, [])
+    return out, fl
